@@ -94,7 +94,9 @@ Example C05_example_repaired :
 Proof. exact repaired_examples. Qed.
 Print Assumptions C05_example_repaired.
 
-(* ---- headline statements for the code as it is now (both repairs in: Refute.repaired) *)
+(* ---- headline statements for the code as it is now: Refute.repaired = the three MoveModule repairs
+   9f7c670 (import context knows the folder), 4ab2467 (root destination), 0b4a7b3 (Case 3 writes an absolute
+   from-import) are in; the harness treats any other probed behaviour as a VIOLATION *)
 Theorem C05_move_module_refs_repaired :
   forall (w : world) (p : path) (b : N) (dest : path) (m : pymod),
     move_domain repaired w (RPy p b) dest m = true ->
@@ -168,6 +170,16 @@ Example C05_example_all_import :
   /\ move_domain repaired w3 (RPy [a_; p_] b_) [c_] m_ex_rel = true.
 Proof. exact example_all_import. Qed.
 Print Assumptions C05_example_all_import.
+
+(* Case 3 (names imported from the moving module through a relative from-import): broken with the old level-keeping
+   Case 3, repaired by 0b4a7b3 — the model under `repaired` writes  from a.b import b . *)
+Example C05_example_case3_repaired :
+  breaks_move repaired w6 (RDir [c_; b_]) [a_] m_case3 = false
+  /\ breaks_move {| v_relctx := true; v_rootfrom := true; v_case3abs := false |} w6 (RDir [c_; b_]) [a_] m_case3 = true
+  /\ move_module_text repaired w6 (RDir [c_; b_]) [a_] m_case3
+     = Done (mk [c_] [IFrom 0 [a_; b_] [(b_, None)]] [[b_; f_]]).
+Proof. exact case3_examples. Qed.
+Print Assumptions C05_example_case3_repaired.
 
 (* Rename of a module file p/b.py to p/nb.py (rename_legal: the new name is free, ...): for the same client
    styles, the model of rename_in_module (every occurrence of the word b that evaluates to the module, in import
